@@ -406,6 +406,8 @@ p_tree_avl_remove (PTreeBaseNode	**root_node,
 	PTreeBaseNode	*prev_node;
 	PTreeBaseNode	*child_node;
 	PTreeAVLNode	*child_parent;
+	ppointer	tmp_key;
+	ppointer	tmp_value;
 	pint		cmp_result;
 
 	cur_node = *root_node;
@@ -430,8 +432,16 @@ p_tree_avl_remove (PTreeBaseNode	**root_node,
 		while (prev_node->right != NULL)
 			prev_node = prev_node->right;
 
+		/* Exchange the pairs: the node marked for removal below must
+		 * carry (and pass to the destroy notifiers) the removed pair */
+		tmp_key   = cur_node->key;
+		tmp_value = cur_node->value;
+
 		cur_node->key   = prev_node->key;
 		cur_node->value = prev_node->value;
+
+		prev_node->key   = tmp_key;
+		prev_node->value = tmp_value;
 
 		/* Mark node for removal */
 		cur_node = prev_node;
